@@ -1197,7 +1197,11 @@ func (m *monC04) Recv(f *Flow, r *Recv) {
 	// Across restarts: the PUBREC for a return goes on the wire only after
 	// the reception record was stored, so a message whose PUBREC was written
 	// is not returned again by any later incarnation on that Persistence.
-	if f.S != nil && !f.S.dead && len(f.DamagedGen) == 0 {
+	// (A reception record that was altered or truncated, not removed, still
+	// marks the reception — "the mere existence of a record marks the
+	// reception", client.go onPUBLISH — so runs whose only damage is of that
+	// kind keep this oracle.)
+	if f.S != nil && !f.S.dead && (len(f.DamagedGen) == 0 || f.markerDamageOnly()) {
 		for _, x := range f.Recvs[:r.Idx] {
 			if x.Out == r.Out && x.Gen != r.Gen && x.AckWire != 0 && w.Broker.Resets == 0 {
 				w.Violate("C04", "returned-twice", "after-pubrec-restart", "ReadSlices (incarnation %d) returned message %d (%q, id %#04x) although incarnation %d had written its PUBREC at step %d, which comes after the reception record: the record was not there at the restart", r.Gen, r.Idx, trunc(r.Topic, 24), r.Out.ID, x.Gen, x.AckWire)
